@@ -348,7 +348,13 @@ pub fn decode_ops<T: Ty>(e: &Typed<T>, input: &[u8], trusted: bool, cx: &mut WCx
         let (r, m) = metered(cx, || v.hash());
         judge(cx, rep, name, "hash", input, &m);
         if let Err(p) = &r {
-            let class = if v2_invalid { Some("ProofOfSpace-v2-invalid-proof") } else { None };
+            // the known finding is this panic site and message only, on a value that holds a v2 proof
+            // without a quality string; any other hash panic keeps its own signature
+            let class = if v2_invalid && p.location.contains("proof_of_space.rs") && p.message.contains("invalid ProofOfSpace") {
+                Some("ProofOfSpace-v2-invalid-proof")
+            } else {
+                None
+            };
             op_panic(rep, "hash", class, p);
         }
     } else {
